@@ -153,3 +153,6 @@ from ..obs import offsets as OF
 TREE_OFFSETS = Ob("C05-F1", "R-FLOW", "R-tree offset premises: level sizes, child offset = base + i*full_size by child kind, descent with accumulated offsets, levels written root->leaves", OF.ob_tree_offsets, floor=3)
 EVERY_VALUE = Ob("C06-O1", "R-ORDER", "no early success exit: every accepted value reaches the summary / depth sweep, items buffer, flush test and every zoom level", SW.ob_every_value_processed, floor=6)
 WINDOW = Ob("C15-W1", "R-ORDER", "merge window accumulator, structural clauses only: accumulate-then-extend before any exit, window indices, hold-back, window advance, zero runs dropped", MF.ob_window, floor=5)
+
+from ..obs import witness as WI
+WITNESSES = Ob("C12-T1w", "R-TYPE", "compile_fail witnesses with compiling twins: halves not Clone, await/expect_closed_write consume the buffer, destination moved into switch", WI.ob_witnesses, floor=5, tier="thorough")
